@@ -140,6 +140,21 @@ def run(ctx):
             flows_.append(make_req(owners={"pk_file_user": u, "pk_file_group": g}))
             flows_.append(make_req(owners={"cert_file_user": u, "pk_file_group": g}, pk_mode=0o640))
             flows_.append(make_req(owners={"pk_file_user": "1", "pk_file_group": "bin", "cert_file_user": u, "cert_file_group": g}))
+    if root:
+        # one *name* that is both a user and a group with different numbers (uid != gid): user and group are looked up in different databases
+        import grp
+        import pwd
+        same = []
+        for pw in pwd.getpwall():
+            try:
+                if grp.getgrnam(pw.pw_name).gr_gid != pw.pw_uid:
+                    same.append(pw.pw_name)
+            except KeyError:
+                pass
+        for nm in same[:2]:
+            flows_.append(make_req(owners={"pk_file_user": nm, "pk_file_group": nm}, pk_mode=0o640))
+            flows_.append(make_req(owners={"cert_file_user": nm, "pk_file_group": nm, "cert_file_group": nm, "pk_file_user": nm}))
+        res.extra["names_with_uid_ne_gid"] = same[:2]
     # rewrite of existing files under a changed configuration
     flows_.append(make_req(cert_mode=0o644, pk_mode=0o600, phase2={"cert_file_mode": 0o600, "pk_file_mode": 0o640}))
     flows_.append(make_req(cert_mode=0o600, pk_mode=0o640, phase2={"cert_file_mode": 0o644, "pk_file_mode": 0o600}))
